@@ -7,7 +7,7 @@ KEYWORDS = ["if", "then", "else", "case", "when", "calc", "filter", "keep", "dro
             "boolean", "date", "time_period", "define", "operator", "returns", "is", "end", "datapoint", "hierarchical", "ruleset", "rule", "variable", "valuedomain", "errorcode", "errorlevel",
             "check", "check_datapoint", "check_hierarchy", "hierarchy", "invalid", "and", "or", "xor", "not", "in", "not_in", "between", "isnull", "nvl", "null", "true", "false", "eval", "language",
             "viral", "propagation", "aggregate", "identifier", "measure", "attribute", "data", "points", "range", "preceding", "following", "unbounded", "current", "sub", "pivot", "unpivot", "apply"]
-PUNCT = ["(", ")", "[", "]", "{", "}", ";", ",", ":=", "<-", "#", "+", "-", "*", "/", "=", "<>", "<", ">", "||", ":", '"', "'", "/*", "*/", "//", "\\", "\x00", "\t", "\n", "\r\n", "€", "​"]
+PUNCT = ["(", ")", "[", "]", "{", "}", ";", ",", ":=", "<-", "#", "+", "-", "*", "/", "=", "<>", "<", ">", "||", ":", '"', "'", "/*", "*/", "//", "\\", "\x00", "\t", "\n", "\r\n", "\r", "\x0c", "\x0b", "\x1c", "\x85", "\u2028", "€", "​"]
 
 
 def tokens(text):
